@@ -36,6 +36,7 @@ PreA(ev, a, maxBlocks) ==
     [] ev.op = "exit"  -> a.blocks # <<>>
     [] ev.op = "new"   -> a.iters[ev.i].st = "unborn"
     [] ev.op \in {"next", "close", "drop", "drain"} -> a.iters[ev.i].st = "live"
+    [] ev.op = "evalthe" -> TRUE               \* the(...).evaluate(): a complete evaluation, anywhere
 ApplyA(ev, a) ==
   CASE ev.op = "enter" -> [a EXCEPT !.blocks = Append(@, ev.kind)]
     [] ev.op = "exit"  -> [a EXCEPT !.blocks = SubSeq(@, 1, Len(@) - 1)]
@@ -43,6 +44,7 @@ ApplyA(ev, a) ==
     [] ev.op = "next"  -> IF a.iters[ev.i].left = 0 THEN [a EXCEPT !.iters[ev.i].st = "done"]
                           ELSE [a EXCEPT !.iters[ev.i].left = @ - 1]
     [] ev.op \in {"close", "drop", "drain"} -> [a EXCEPT !.iters[ev.i].st = "done", !.iters[ev.i].left = 0]
+    [] ev.op = "evalthe" -> a
 \* what `next` returns: a row while some are left, then StopIteration
 ExpNext(ev, a) == IF a.iters[ev.i].left = 0 THEN "stop" ELSE "row"
 
@@ -63,4 +65,5 @@ ApplyM(ev, a, m) ==
                    ELSE m
     [] ev.op \in {"close", "drop", "drain"} ->
          IF IterHoldsMode /\ m.started[ev.i] THEN [m EXCEPT !.cv = m.iprev[ev.i], !.started[ev.i] = FALSE] ELSE m
+    [] ev.op = "evalthe" -> m                  \* switches the mode off for the evaluation and restores what it found
 ===========================================================================
